@@ -5,9 +5,6 @@ import os
 import threading
 import time
 
-import z3
-
-from vf.sched import bmc
 from vf.sched import proxies
 from vf.sched.proxies import CTL
 
@@ -95,6 +92,11 @@ def shared_objects(all_traces):
         if ev.writes is not None or ev.op in ('acquire', 'release', 'effect'):
           writers.add(ev.obj)
   return {o for o, u in users.items() if o in writers and (len(u) >= 2 or o.startswith('external:'))}
+
+
+def _bmc():
+  from vf.sched import bmc     # needs z3: only the solving side imports it (replays do not)
+  return bmc
 
 
 class Atomic:
@@ -199,7 +201,7 @@ class Scenario:
       common = frozenset.intersection(*hs)
       if common:
         guard[obj] = sorted(common)[0]
-    tries = [bmc.Trie() for _ in self.programs]
+    tries = [_bmc().Trie() for _ in self.programs]
     bad = set()          # locks with at least one section that is not a plain guarded block
     for traces in self.raw:
       for tr in traces:
@@ -209,7 +211,7 @@ class Scenario:
         tries[i].add(compress([ev for ev in tr if ev.obj in shared], guard, bad))
     self.shared = shared
     self.guard = guard
-    model = bmc.Model(tries, init_present=dict(CELL_INIT), list_init=dict(LIST_INIT))
+    model = _bmc().Model(tries, init_present=dict(CELL_INIT), list_init=dict(LIST_INIT))
     return model
 
   def solve(self, max_iters=40):
@@ -280,6 +282,7 @@ class Scenario:
 
 
 def standard_queries(model, scen):
+  import z3
   """(a) an error event in some thread, (b) a final state different from the sequential one."""
   out = [('error event (KeyError / dict changed size during iteration / deadlock)',
           [model.bad[model.T], z3.Not(model.div[model.T])])]
@@ -287,9 +290,9 @@ def standard_queries(model, scen):
   for c, ci in model.cells.items():
     want_p = c in scen.seq_final
     diffs.append(model.pres[ci][model.T] != want_p)
-    if want_p and bmc.abs_tok(scen.seq_final[c]) in model.tokens:
+    if want_p and _bmc().abs_tok(scen.seq_final[c]) in model.tokens:
       diffs.append(z3.And(model.pres[ci][model.T],
-                          model.val[ci][model.T] != model.tokens[bmc.abs_tok(scen.seq_final[c])]))
+                          model.val[ci][model.T] != model.tokens[_bmc().abs_tok(scen.seq_final[c])]))
   if diffs:
     out.append(('final state', [z3.Not(model.bad[model.T]), z3.Not(model.div[model.T]),
                                 model.all_done_end, z3.Or(diffs)]))
